@@ -173,6 +173,49 @@ deriving Repr, DecidableEq
 					}
 				}
 			}
+			// repaired guard (F27): `if L.Kind() == reflect.Slice { … for … { if !checkAssociationsSaved(db, L.Index(i)) {…} }
+			// if L = U; L.Len() == 0 { return nil } } else if checkAssociationsSaved(db, L) { return nil }`
+			if is, ok := s.(*ast.IfStmt); ok && kind == "" && is.Init == nil {
+				if els, ok := is.Else.(*ast.IfStmt); ok && els.Else == nil && els.Init == nil && len(els.Body.List) == 1 {
+					if c, ok := els.Cond.(*ast.CallExpr); ok && src(c.Fun) == "checkAssociationsSaved" {
+						if r, ok := els.Body.List[0].(*ast.ReturnStmt); ok {
+							var each, exits []string
+							ast.Inspect(is.Body, func(n ast.Node) bool {
+								switch x := n.(type) {
+								case *ast.CallExpr:
+									if src(x.Fun) == "checkAssociationsSaved" {
+										var as []string
+										for _, a := range x.Args {
+											as = append(as, src(a))
+										}
+										each = append(each, strings.Join(as, ", "))
+									}
+								case *ast.IfStmt:
+									if len(x.Body.List) == 1 {
+										if rr, ok := x.Body.List[0].(*ast.ReturnStmt); ok {
+											var rs []string
+											for _, y := range rr.Results {
+												rs = append(rs, src(y))
+											}
+											exits = append(exits, src(x.Init)+"; "+src(x.Cond)+" => return "+strings.Join(rs, ", "))
+										}
+									}
+								}
+								return true
+							})
+							var as, rs []string
+							for _, a := range c.Args {
+								as = append(as, src(a))
+							}
+							for _, x := range r.Results {
+								rs = append(rs, src(x))
+							}
+							stmts = append(stmts, [2]string{"guard-each", src(is.Cond) + ": " + strings.Join(each, " | ") + " => keep; " + strings.Join(exits, " | ")})
+							kind, text = "guard", strings.Join(as, ", ")+" => return "+strings.Join(rs, ", ")
+						}
+					}
+				}
+			}
 			if kind == "" {
 				hasCreate, hasReturn, copyTo := "", false, ""
 				ast.Inspect(s, func(n ast.Node) bool {
